@@ -287,10 +287,12 @@ func (f *FibStrategyHashTable) InsertNextHopEnc(name enc.Name, nexthop uint64, c
 
 	realEntry := f.insertEntryEnc(name)
 
-	for _, existingNextHop := range realEntry.nexthops {
+	for i, existingNextHop := range realEntry.nexthops {
 		if existingNextHop.Nexthop == nexthop {
-			// Update existing hop
-			existingNextHop.Cost = cost
+			// Update existing hop. Published nexthop entries are immutable:
+			// forwarding threads read them outside the lock, so replace
+			// the entry instead of updating it in place
+			realEntry.nexthops[i] = &FibNextHopEntry{Nexthop: nexthop, Cost: cost}
 			return
 		}
 	}
